@@ -403,7 +403,8 @@ class Field(WeightedGraph):
         sf.field = initial_field.copy()
 
         # explore the subfield
-        order = np.argsort(- initial_field)
+        # (negating unsigned or minimal integer values would wrap around)
+        order = np.argsort(- initial_field.astype(np.float64))
         rows = sf.to_coo_matrix().tolil().rows
         llabel = - np.ones(sf.V, np.int_)
         parent, root =  np.arange(2 * self.V), np.arange(2 * self.V)
